@@ -1163,6 +1163,17 @@ func callBuiltin(caller *frame, callpos token.Pos, fn *ssa.Builtin, args []value
 
 	case "ssa:deferstack":
 		return &caller.defers
+
+	case "SliceData": // unsafe.SliceData: identity of the backing array's first element
+		sl, _ := args[0].([]value)
+		if cap(sl) == 0 {
+			return (*value)(nil)
+		}
+		return &sl[:1][0]
+	case "StringData":
+		panic(unsupported("unsafe.StringData"))
+	case "String": // unsafe.String(ptr, len)
+		panic(unsupported("unsafe.String"))
 	}
 
 	panic("unknown built-in: " + fn.Name())
